@@ -336,6 +336,24 @@ static void generator_level(const Config & c, const Setup & s, uint64_t phase, S
     if (!w.empty()) S.V(key + ":cone", ctx + ": target " + w);
   }
   if (e1.get_time() != e0.get_time() || e1.get_generator() != e0.get_generator()) S.V(key + ":decay-sample", ctx + ": event time/label differ");
+  // the generator with the operation = the plain decay followed by the operation applied to that event with the deviates
+  // that come next in the stream (whatever the multiplicity of the event: one-particle events included)
+  {
+    MDL direct;
+    std::string why;
+    if (configure(direct, s, why)) {
+      event expect = e0;
+      PortRand r2;
+      r2.s.forced = &none;
+      r2.s.phase = phase;
+      r2.horizon = 200000;
+      r2.i = r0.i;
+      bool threw = false;
+      try { direct(r2, expect); } catch (std::exception &) { threw = true; }
+      if (!threw && (!bit_identical(expect, e1) || r2.i != r1.i))
+        S.V(key + ":composition", ctx + ": the event (" + std::to_string(n) + " particle(s)) is not the plain decay with the operation applied to it (deviates " + std::to_string(r1.i) + " vs " + std::to_string(r2.i) + ")");
+    }
+  }
 }
 
 int main(int argc, char ** argv)
